@@ -983,3 +983,63 @@ func helperFacts(call *ssa.Call, idx int, pol bool, depth int) []Fact {
 	}
 	return out
 }
+
+// SameLoad reports whether a and b are the same SSA value or two loads of the same struct field
+// reached through structurally identical field-address chains from the same base value, in a
+// function that never stores to that field. (go/ssa does no CSE: `len(c.Args)` and `c.Args[i]`
+// load the field twice. Calls between the loads are assumed not to change the field: the
+// objects concerned are configuration records, which are not mutated at run time.)
+func SameLoad(a, b ssa.Value) bool {
+	a, b = Resolve(a), Resolve(b)
+	if a == b {
+		return true
+	}
+	la, ok1 := a.(*ssa.UnOp)
+	lb, ok2 := b.(*ssa.UnOp)
+	if !ok1 || !ok2 || la.Op != token.MUL || lb.Op != token.MUL {
+		return false
+	}
+	fa, ok1 := la.X.(*ssa.FieldAddr)
+	fb, ok2 := lb.X.(*ssa.FieldAddr)
+	if !ok1 || !ok2 || fa.Field != fb.Field || !types.Identical(fa.X.Type(), fb.X.Type()) {
+		return false
+	}
+	if !sameAddrBase(fa.X, fb.X, 4) {
+		return false
+	}
+	fn := la.Parent()
+	if fn == nil || fn != lb.Parent() {
+		return false
+	}
+	for _, blk := range fn.Blocks {
+		for _, ins := range blk.Instrs {
+			if st, ok := ins.(*ssa.Store); ok {
+				if sa, ok := st.Addr.(*ssa.FieldAddr); ok && sa.Field == fa.Field && types.Identical(sa.X.Type(), fa.X.Type()) {
+					return false
+				}
+			}
+		}
+	}
+	return true
+}
+
+func sameAddrBase(a, b ssa.Value, depth int) bool {
+	if a == b {
+		return true
+	}
+	if depth == 0 {
+		return false
+	}
+	switch x := a.(type) {
+	case *ssa.FieldAddr:
+		y, ok := b.(*ssa.FieldAddr)
+		return ok && x.Field == y.Field && types.Identical(x.X.Type(), y.X.Type()) && sameAddrBase(x.X, y.X, depth-1)
+	case *ssa.UnOp:
+		y, ok := b.(*ssa.UnOp)
+		if !ok || x.Op != token.MUL || y.Op != token.MUL {
+			return false
+		}
+		return SameLoad(x, y)
+	}
+	return Resolve(a) == Resolve(b)
+}
